@@ -39,6 +39,15 @@ CHECKS.update({
    design_ref="DESIGN.md §3 C14"),
 })
 
+CHECKS.update({
+ "C11": dict(
+   category="exploration",
+   text="L0 through the door on the real code: rfc1071_checksum and serialised echo images against an RFC 1071 reference on seeded byte strings of every length 0..1500 and on echo images whose last data word is solved so that the folded sum carries a second time (the failing class is hit by construction); the real 7.3 decoder under whole / byte-at-a-time / every 1-cut / every 2-cut of streams of 1-3 records; the real 7.4 encoder + responded_echo_request on built packets (echo replies, ICMPv4 errors quoting the request behind 0-40 option bytes, ICMPv6 errors, extension-header chains, truncated and foreign quotes). L2 (raw ICMP on lo through the real IcmpForwarder) is reported in coverage.l2.",
+   note="Trusted: the reference checksum/codec in harness/src/props/c11.rs. ICMPv6 checksums are filled in by the kernel, so only ICMPv4 images must verify as serialised. Duplicate genuine replies inside the timeout window are EITHER.",
+   technique="runtime monitoring: differential oracle on real checksum/codec/quote-matching with constructed double-carry inputs and exhaustive small segmentations",
+   design_ref="DESIGN.md §3 C11"),
+})
+
 NOT_YET = "check not built yet in this session (designed in DESIGN.md §3; harness work in progress)"
 
 def main():
